@@ -71,16 +71,19 @@ def td_proposal(cfg):
     comps = ['a%d' % i for i in range(1, n + 1)]
     fam = cfg['td_family']
     T = cfg['T']
+    kk = cfg.get('td_k', 1)                  # the in-model proposals may be slow ones (jump interval > 1) like any other
+    slow = dict(jump_interval=kk, jump_interval_duration=T) if kk > 1 else {}
+    aslow = dict(jump_interval=kk) if kk > 1 else {}
     if fam == 'normal':
-        tds = [P.Normal([c], cov=[0.5]) for c in comps]
+        tds = [P.Normal([c], cov=[0.5], **slow) for c in comps]
     elif fam == 'adaptive_normal':
-        tds = [P.AdaptiveNormal([c], {c: 4.}, adaptation_duration=T) for c in comps]
+        tds = [P.AdaptiveNormal([c], {c: 4.}, adaptation_duration=T, **aslow) for c in comps]
     elif fam == 'ss_adaptive_normal':
-        tds = [P.SSAdaptiveNormal([c]) for c in comps]
+        tds = [P.SSAdaptiveNormal([c], **slow) for c in comps]
     elif fam == 'bounded_normal':            # not symmetric: the in-model Hastings factor matters
-        tds = [P.BoundedNormal([c], {c: (0., 4.)}, cov=[1.5]) for c in comps]
+        tds = [P.BoundedNormal([c], {c: (0., 4.)}, cov=[1.5], **slow) for c in comps]
     else:
-        tds = [P.ATAdaptiveNormal([c], adaptation_duration=T) for c in comps]
+        tds = [P.ATAdaptiveNormal([c], adaptation_duration=T, **aslow) for c in comps]
     if cfg['birth'] == 'uniform':
         lo_b, hi_b = cfg.get('birth_bounds', (0., 4.))       # may be narrower than the prior support (0, 4)
         births = [P.UniformBirth([c], {c: (lo_b, hi_b)}) for c in comps]
@@ -114,6 +117,7 @@ def gen(rng, kind=None, allow_annealer=True):
                    birth=rng.choice(['uniform', 'normal', 'lognormal']), successive=rng.random() < 0.5,
                    birth_bounds=rng.choice([(0., 4.), (0., 4.), (1., 3.), (0.5, 2.0)]))
         cfg['k_bounds_frac'] = cfg['mixseed'] % 3 == 0          # (no extra draw: the random stream of the other fields is unchanged)
+        cfg['td_k'] = 2 if cfg['mixseed'] % 4 == 1 else 1       # in-model proposals with a jump interval
     return cfg
 
 
